@@ -1,7 +1,7 @@
 // @module uni::channels::movable::atomic
 #[allow(unused_imports)] use super::*;
 #[cfg(kani)]
-mod proofs {
+pub(crate) mod proofs {
     use super::*;
     use crate::streams_manager::verif_hooks as sm;
     use crate::ogre_std::ogre_queues::atomic::atomic_move::verif_hooks as am;
